@@ -360,6 +360,9 @@ func parseMultilayerExtension(r *bits.EBSPReader) (*MultilayerExtension, error) 
 		ext.ScalingListRefLayerId = uint8(r.Read(6))
 	}
 	ext.NumRefLocOffsets = r.ReadExpGolomb()
+	if ext.NumRefLocOffsets > 62 { // Range is 0 to vps_max_layers_minus1, which is at most 62
+		return nil, fmt.Errorf("num_ref_loc_offsets %d is not in range 0 to 62", ext.NumRefLocOffsets)
+	}
 	ext.RefLocOffsets = make(map[uint8]RefLocOffset, int(ext.NumRefLocOffsets))
 	for i := uint(0); i < ext.NumRefLocOffsets; i++ {
 		ext.RefLocOffsetLayerIds = append(ext.RefLocOffsetLayerIds, uint8(r.Read(6)))
